@@ -54,12 +54,12 @@ theorem brOK_of_block (cx : Cx) (fuel : Nat) (E : Nat) (s0 : St) (env : Src.Env)
         simp only [Bool.and_eq_true, Bool.not_eq_true', List.all_eq_true, List.isEmpty_eq_false_iff] at hc
         exact ⟨hc.1.2, hc.2⟩
       · cases hsc
-    obtain ⟨n, htr, hsem⟩ := hBody.lone l hlone
     have hP : patchNone E blk.items = [.label (sb.lbc + 1) false] := by rw [hitems]; rfl
     refine ⟨⟨hok, hBody.grow, fun _ => ⟨bps, fun _ => l, l, hh, fun _ _ => rfl, hnm, ?_⟩, fun hn => ?_⟩, hst, hdrsTo_nonone hh, ?_, ?_⟩
     · intro r ib _ k b _ m j hex _
+      obtain ⟨n, htr, hsem⟩ := hBody.lone l hlone m j (exitsOK_stk hex hstk)
       simp only [htr k b]
-      exact hsem m j (exitsOK_stk hex hstk)
+      exact hsem
     · exfalso
       subst hn
       cases bps with
